@@ -45,8 +45,11 @@ def dec(a):
 
 def call(mod, backend, f, args, inplace=False):
     """Run one binding call; returns the outcome string. Never raises for ordinary exceptions."""
+    fn = getattr(mod, f, None)
+    if fn is None:
+        # a function the backend does not offer is a harness / coverage matter, not a rejection by the backend
+        return "missing"
     try:
-        fn = getattr(mod, f)
         if inplace:
             first = args[0]
             # inplace = "bytearray" (works under both backends) or "bytes" (a fresh object: ctypes writes into
